@@ -35,6 +35,7 @@ CLASSES = {
     "ruma_identifiers_validation::room_id_or_alias_id::validate": 6,
     "ruma_identifiers_validation::base64_public_key::validate": 7,
     "ruma_identifiers_validation::client_secret::validate": 8,
+    "validate_session_id": 11,
 }
 
 INTS = {
@@ -48,7 +49,7 @@ UINT_NEWTYPES = {"MilliSecondsSinceUnixEpoch", "SecondsSinceUnixEpoch"}
 SKIP_PRED = {  # skip_serializing_if path -> skind
     "Option::is_none": "SIfNone",
     "Vec::is_empty": "SIfEmpty", "BTreeMap::is_empty": "SIfEmpty", "String::is_empty": "SIfEmpty",
-    "JsonObject::is_empty": "SIfEmpty",
+    "JsonObject::is_empty": "SIfEmpty", "<[_]>::is_empty": "SIfEmpty",
     "ruma_common::serde::is_default": "SIfDefault", "is_default": "SIfDefault",
     "crate::serde::is_default": "SIfDefault",
     "ruma_common::serde::is_true": ("SIfEq", True), "is_true": ("SIfEq", True),
@@ -62,6 +63,16 @@ DEFAULT_FN_BODY = {
     "default_room_version_id": ("crates/ruma-events/src/room/create.rs",
                                 "fn default_room_version_id() -> RoomVersionId {\n    RoomVersionId::V1\n}"),
     "default_true": ("crates/ruma-common/src/serde.rs", "pub fn default_true() -> bool {\n    true\n}"),
+}
+
+
+# `with = "path"`: (field type as written, modelled type).  ruma-common/src/serde/duration/*.rs: a
+# Duration is written as js_int::UInt milliseconds / seconds (an error above 2^53-1) and read from one.
+WITH = {
+    "ruma_common::serde::duration::ms": ("Duration", ("int", 0, MAXI)),
+    "ruma_common::serde::duration::secs": ("Duration", ("int", 0, MAXI)),
+    "ruma_common::serde::duration::opt_ms": ("Option<Duration>", ("opt", ("int", 0, MAXI))),
+    "ruma_common::serde::duration::opt_secs": ("Option<Duration>", ("opt", ("int", 0, MAXI))),
 }
 
 
@@ -131,6 +142,12 @@ def resolver(crates=("ruma-events",)):
                    "pub type EntitySignatures<K> = BTreeMap<OwnedSigningKeyId<K>, String>;"):
         if needle not in sig_src:
             raise TranslateError("identifiers/signatures.rs: expected `%s`" % needle)
+    sid_src = open(os.path.join(c19.REPO, "crates/ruma-common/src/identifiers/session_id.rs")).read()
+    for needle in ("if s.len() > 255 {", "} else if contains_invalid_byte(s.as_bytes()) {", "} else if s.is_empty() {",
+                   "if byte.is_ascii_alphanumeric() || matches!(byte, b'.' | b'=' | b'_' | b'-') {"):
+        if needle not in sid_src:
+            raise TranslateError("identifiers/session_id.rs: expected `%s` (the validator is modelled by hand in "
+                                 "coq/C18/SerdeBridge.v valid_session_id)" % needle)
     memo = {}
     stack = []
 
@@ -268,14 +285,21 @@ def resolver(crates=("ruma-events",)):
                     raise Custom("%s.%s: serde(flatten) of a tagged struct" % (it.name, f.name))
                 fields.extend(dict(x, rust=f.name + "." + x["rust"]) for x in t[2])
                 continue
+            strict = False
+            w = f.serde.get("with")
+            if w is not None:
+                w = w.replace("crate::serde::", "ruma_common::serde::")
+                if w not in WITH or S.ty_text(f.ty) != WITH[w][0]:
+                    raise Custom("%s.%s: serde(with = %s) on %s" % (it.name, f.name, w, S.ty_text(f.ty)))
+                strict = "default" not in f.serde     # no `default`: a missing member is an error, Option or not
             for k in f.serde:
-                if k not in ("rename", "default", "skip_serializing_if"):
+                if k not in ("rename", "default", "skip_serializing_if", "with"):
                     raise Custom("%s.%s: serde(%s)" % (it.name, f.name, k))
-            t = of_type(f.ty, it)
+            t = WITH[w][1] if w is not None else of_type(f.ty, it)
             wire = f.serde.get("rename", f.name)
             d = f.serde.get("default")
             if d is None:
-                dk = ("required",)
+                dk = ("strict",) if strict else ("required",)
             elif d is True:
                 dk = ("default",)
             elif d in DEFAULT_FN:
@@ -429,7 +453,7 @@ def coq_ty(t, defs, order):
         fs = []
         for f in t[2]:
             d = f["default"]
-            dk = {"required": "DRequired", "default": "DDefault"}.get(d[0]) or "(DConst %s)" % coq_json(d[1])
+            dk = {"required": "DRequired", "default": "DDefault", "strict": "DStrict"}.get(d[0]) or "(DConst %s)" % coq_json(d[1])
             s = f["skip"]
             sk = {"never": "SNever"}.get(s[0]) or (s[0] if len(s) == 1 else "(SIfEq %s)" % coq_json(s[1]))
             fs.append("    ({| f_name := %s; f_aliases := [%s]; f_default := %s; f_skip := %s |},\n     %s)" % (
